@@ -18,12 +18,14 @@ import (
 	"io"
 	"log"
 	"math/rand"
+	"net"
 	"net/http"
 	"net/http/httptest"
 	"net/http/httputil"
 	"net/url"
 	"strings"
 	"sync"
+	"sync/atomic"
 	"time"
 
 	eth2api "github.com/attestantio/go-eth2-client/api"
@@ -38,6 +40,9 @@ import (
 
 const nodeTimeout = 60 * time.Second
 
+// violSeenHTTP counts the violations found through the production client (subset of violSeen).
+var violSeenHTTP atomic.Int64
+
 type hOutcome int
 
 const (
@@ -48,7 +53,7 @@ const (
 	hEp400            // initialisation fine, the called endpoint answers 400 (not unavailability)
 	hEp404            // initialisation fine, the called endpoint answers 404 (not unavailability)
 	hSyncing          // node reports is_syncing=true: go-eth2-client fails duty endpoints with "client is not synced" (syncing = unavailable)
-	hDies             // initialised successfully by an earlier call, then the node goes away (server closed): unreachable
+	hDies             // initialised successfully by an earlier call, then the node goes away (resets every connection): unreachable
 	numHOutcomes
 )
 
@@ -97,6 +102,8 @@ type hcellSpec struct {
 	Deadline bool        `json:"context_end_is_deadline,omitempty"`
 	Warm     bool        `json:"clients_initialised_by_earlier_call,omitempty"`
 	Prime    bool        `json:"one_more_call_after_nodes_died,omitempty"` // lets go-eth2-client notice: "client is not active"
+	BodySize int         `json:"proxy_body_bytes,omitempty"`
+	Reads    []string    `json:"proxy_body_reads_per_node,omitempty"` // full | half | none (failing nodes)
 }
 
 func (s *hcellSpec) fill() {
@@ -109,11 +116,48 @@ func (s *hcellSpec) fill() {
 }
 
 type hmethod struct {
-	Name   string
-	Style  string
-	Synced bool // go-eth2-client requires a synced node for this endpoint
-	Path   string
-	call   func(ctx context.Context, cl eth2wrap.Client) (uint64, error) // returns the uid found in the payload
+	Name     string
+	Style    string
+	SigStyle string
+	Synced   bool // go-eth2-client requires a synced node for this endpoint
+	Path     string
+	HTTPVerb string                                                                 // Proxy only
+	call     func(ctx context.Context, cl eth2wrap.Client) (uint64, error)          // returns the uid found in the payload
+	callCell func(ctx context.Context, cl eth2wrap.Client, c *hrun) (uint64, error) // Proxy: the request depends on the cell
+}
+
+func (m *hmethod) sigStyle() string {
+	if m.SigStyle != "" {
+		return m.SigStyle
+	}
+
+	return m.Style
+}
+
+// hproxyCall sends the cell's request through Proxy and identifies the answering node.
+func hproxyCall(ctx context.Context, cl eth2wrap.Client, c *hrun) (uint64, error) {
+	req, err := proxyRequest(ctx, &proxySpec{HTTPMethod: c.meth.HTTPVerb, BodySize: c.spec.BodySize}, c.proxyBody)
+	if err != nil {
+		return 0, err
+	}
+	res, err := cl.Proxy(ctx, req)
+	if err != nil {
+		return 0, err
+	}
+	a := readProxyAnswer(res)
+	var uid uint64
+	if _, err := fmt.Sscan(a.HdrNode, &uid); err != nil || a != expectedProxyAnswer(uid, c.proxySha) {
+		return ^uint64(0), nil // headers and body of different nodes / not the request that was sent
+	}
+
+	return uid, nil
+}
+
+func init() {
+	hmethods = append(hmethods,
+		&hmethod{Name: "ProxyPOST", Style: "provide", SigStyle: "proxy", Path: proxyPath, HTTPVerb: http.MethodPost, callCell: hproxyCall},
+		&hmethod{Name: "ProxyGET", Style: "provide", SigStyle: "proxy", Path: proxyPath, HTTPVerb: http.MethodGet, callCell: hproxyCall},
+	)
 }
 
 var hmethods = []*hmethod{
@@ -182,6 +226,7 @@ type hnode struct {
 	gate     chan struct{}
 
 	// under run.mu
+	dead       bool // lost after initialisation: resets every connection
 	released   bool
 	reqs       int
 	pending    int   // handlers blocked on the gate right now
@@ -204,6 +249,21 @@ func (n *hnode) ServeHTTP(w http.ResponseWriter, r *http.Request) {
 	c := n.run
 	path := r.URL.Path
 	isInit := path == "/eth/v1/node/syncing" || path == "/eth/v1/node/version"
+	c.mu.Lock()
+	dead := n.dead
+	c.mu.Unlock()
+	if dead {
+		if hj, ok := w.(http.Hijacker); ok {
+			if conn, _, err := hj.Hijack(); err == nil {
+				if tc, ok := conn.(*net.TCPConn); ok {
+					_ = tc.SetLinger(0) // RST
+				}
+				_ = conn.Close()
+			}
+		}
+
+		return
+	}
 	c.mu.Lock()
 	armed := c.armed
 	if armed {
@@ -268,6 +328,9 @@ func (n *hnode) ServeHTTP(w http.ResponseWriter, r *http.Request) {
 		}
 	case path == "/eth/v1/node/version":
 		writeJSON(200, fmt.Sprintf(`{"data":{"version":"c19-node-%d/v1.0.0"}}`, n.uid))
+	case path == c.meth.Path && c.meth.HTTPVerb != "":
+		n.serveProxied(w, r, writeErr, writeJSON)
+		answered()
 	case path == c.meth.Path:
 		switch n.spec.Outcome {
 		case hEp503:
@@ -291,6 +354,71 @@ func (n *hnode) ServeHTTP(w http.ResponseWriter, r *http.Request) {
 	default:
 		c.proxy.ServeHTTP(w, r) // spec, genesis, … from the shared beaconmock HTTP server
 	}
+}
+
+// serveProxied handles the proxied request: failing nodes read the body fully / partially / not at
+// all before failing; a healthy node answers 200 only for exactly the request that was sent.
+func (n *hnode) serveProxied(w http.ResponseWriter, r *http.Request, writeErr func(int), writeJSON func(int, string)) {
+	c := n.run
+	how := "full"
+	if n.idx < len(c.spec.Reads) {
+		how = c.spec.Reads[n.idx]
+	}
+	healthy := n.spec.Outcome == hOK || n.spec.Outcome == hSyncing || n.spec.Outcome == hDies
+	if healthy {
+		how = "full"
+	}
+	var got []byte
+	switch how {
+	case "full":
+		got, _ = io.ReadAll(r.Body)
+	case "half":
+		buf := make([]byte, c.spec.BodySize/2)
+		k, _ := io.ReadFull(r.Body, buf)
+		got = buf[:k]
+	}
+	switch n.spec.Outcome {
+	case hEp503:
+		writeErr(http.StatusServiceUnavailable)
+		return
+	case hEp400:
+		writeErr(http.StatusBadRequest)
+		return
+	case hEp404:
+		writeErr(http.StatusNotFound)
+		return
+	}
+	var problem string
+	q := r.URL.Query()
+	switch {
+	case r.Method != c.meth.HTTPVerb:
+		problem = fmt.Sprintf("method %s instead of %s", r.Method, c.meth.HTTPVerb)
+	case q.Get("slot") != "7" || q.Get("id") != "head":
+		problem = "query " + r.URL.RawQuery
+	case string(got) != string(c.proxyBody):
+		problem = fmt.Sprintf("%d of %d request body bytes (sha256 %s… instead of %s…)", len(got), len(c.proxyBody), shaHex(got)[:12], c.proxySha[:12])
+	}
+	c.mu.Lock()
+	armed := c.armed
+	if armed && problem != "" {
+		if c.bodyBad == "" {
+			c.bodyBad = fmt.Sprintf("healthy node %s received %s", n.label(), problem)
+		}
+		c.bodyBadCount++
+		c.tracef("%s: %s -> 400", n.label(), problem)
+	} else if armed {
+		c.bodyOKCount++
+	}
+	c.mu.Unlock()
+	c.bump()
+	if problem != "" {
+		writeErr(http.StatusBadRequest)
+		return
+	}
+	a := expectedProxyAnswer(n.uid, c.proxySha)
+	w.Header().Set("X-C19-Node", a.HdrNode)
+	w.Header().Set("X-C19-Body-Sha", a.HdrSha)
+	writeJSON(http.StatusOK, a.Body)
 }
 
 type hresult struct {
@@ -319,6 +447,12 @@ type hrun struct {
 	trace     []string
 	done      bool
 	res       hresult
+
+	proxyBody    []byte
+	proxySha     string
+	bodyBad      string
+	bodyBadCount int
+	bodyOKCount  int
 
 	stallAt, stallKind string
 	released           []string
@@ -430,6 +564,10 @@ func newHRun(kc *kit.Case, spec *hcellSpec) (*hrun, error) {
 		return nil, err
 	}
 	c := &hrun{kc: kc, spec: spec, meth: hmethodByName(spec.Method), nP: len(spec.Prim), notify: make(chan struct{}, 1), cctx: newCallerCtx()}
+	if c.meth.HTTPVerb == http.MethodPost {
+		c.proxyBody = proxyBody(int64(kc.Idx)+1, spec.BodySize)
+	}
+	c.proxySha = shaHex(c.proxyBody)
 	c.proxy = httputil.NewSingleHostReverseProxy(target)
 	c.proxy.ErrorLog = log.New(io.Discard, "", 0)
 	c.proxy.ErrorHandler = func(w http.ResponseWriter, _ *http.Request, _ error) { w.WriteHeader(http.StatusBadGateway) }
@@ -461,7 +599,15 @@ func (c *hrun) closeServers() {
 }
 
 func (c *hrun) call(m eth2wrap.Client) {
-	uid, err := c.meth.call(c.cctx, m)
+	var (
+		uid uint64
+		err error
+	)
+	if c.meth.callCell != nil {
+		uid, err = c.meth.callCell(c.cctx, m, c)
+	} else {
+		uid, err = c.meth.call(c.cctx, m)
+	}
 	c.mu.Lock()
 	c.seq++
 	c.res = hresult{uid: uid, err: err, cancelled: c.cancelled, seq: c.seq}
@@ -494,9 +640,13 @@ func (c *hrun) drive() error {
 		died := false
 		for _, n := range c.nodes {
 			if n.spec.Outcome == hDies && n.srv != nil {
+				// The node goes away, but its port stays bound: closing the listener would let another
+				// cell's server reuse the port and answer in its place. From now on every connection
+				// is reset without an answer.
+				c.mu.Lock()
+				n.dead = true
+				c.mu.Unlock()
 				n.srv.CloseClientConnections()
-				n.srv.Close()
-				n.srv = nil
 				died = true
 			}
 		}
@@ -631,7 +781,14 @@ func (c *hrun) pendingHandlers() int { // c.mu held
 }
 
 func (c *hrun) mustReturn(why, tname string) {
-	if c.awaitSettle(c.isDone) {
+	if c.awaitSettle(func() bool { return c.done || c.bodyBad != "" }) {
+		if !c.doneNow() {
+			c.mu.Lock()
+			c.stallAt = why
+			c.mu.Unlock()
+			c.stallKind = "request-altered"
+		}
+
 		return
 	}
 	c.mu.Lock()
@@ -760,8 +917,9 @@ func hclassSet(ns []hnodeSpec) string {
 }
 
 func (c *hrun) violation(fired *[]string, rule, what string) {
-	sig := fmt.Sprintf("eth2wrap.multihttp/%s/%s", c.meth.Style, rule)
+	sig := fmt.Sprintf("eth2wrap.multihttp/%s/%s", c.meth.sigStyle(), rule)
 	violSeen.Add(1)
+	violSeenHTTP.Add(1)
 	*fired = append(*fired, sig)
 	c.mu.Lock()
 	trace := append([]string(nil), c.trace...)
@@ -849,6 +1007,26 @@ func (c *hrun) evaluate() {
 		for k := range hungPhase {
 			phase = k
 		}
+	}
+
+	c.mu.Lock()
+	bodyBad, bodyBadCount, bodyOKCount := c.bodyBad, c.bodyBadCount, c.bodyOKCount
+	c.mu.Unlock()
+	if c.meth.HTTPVerb != "" {
+		R.Count("http/proxy/cells", 1)
+		R.Count("http/proxy/healthy_nodes_that_received_the_intact_request", int64(bodyOKCount))
+		R.Seen("http_proxy_requests", fmt.Sprintf("%s/%s", c.meth.HTTPVerb, sizeClass(len(c.proxyBody))))
+	}
+	if c.stallKind == "request-altered" {
+		c.violation(&fired, "healthy-node-received-altered-request", fmt.Sprintf("%s: %s while the handlers of the other nodes were blocked, but it had been sent an altered request and answered 400: %s", c.meth.Name, c.stallAt, bodyBad))
+		return
+	}
+	if bodyBadCount > 0 && r.err == nil {
+		R.Count("http/observation/proxy-healthy-node-received-altered-request-but-call-succeeded", 1)
+	}
+	bodyNote := ""
+	if bodyBad != "" {
+		bodyNote = " — " + bodyBad + " and answered 400"
 	}
 
 	// (1) no waiting for slower / hung nodes
@@ -955,13 +1133,13 @@ func (c *hrun) evaluate() {
 		if !r.cancelled && c.stallAt == "" {
 			switch {
 			case primCat == tierSuccess:
-				c.violation(&fired, "failed-although-a-primary-answers-successfully", fmt.Sprintf("%s returned an error although a primary answers successfully: %s", c.meth.Name, kit.Short(r.err.Error(), 200)))
+				c.violation(&fired, "failed-although-a-primary-answers-successfully", fmt.Sprintf("%s returned an error although a primary answers successfully: %s%s", c.meth.Name, kit.Short(r.err.Error(), 200), bodyNote))
 			case primCat == tierBlocked:
 				c.violation(&fired, "failed-before-all-primaries-failed", fmt.Sprintf("%s returned an error while a primary was hung (neither answered nor failed): %s", c.meth.Name, kit.Short(r.err.Error(), 200)))
 			case primCat == tierFailU && observableFallback && !fbBeforeEnd:
 				c.violation(&fired, "fallback-not-consulted-on-unavailability/"+hclassSet(spec.Prim), fmt.Sprintf("%s: every primary was unavailable (%s) but no fallback node received a request: %s", c.meth.Name, hclassSet(spec.Prim), kit.Short(r.err.Error(), 200)))
 			case primCat == tierFailU && fallCat == tierSuccess:
-				c.violation(&fired, "failed-although-a-fallback-answers-successfully", fmt.Sprintf("%s returned an error although the consulted fallbacks contain a node that answers successfully: %s", c.meth.Name, kit.Short(r.err.Error(), 200)))
+				c.violation(&fired, "failed-although-a-fallback-answers-successfully", fmt.Sprintf("%s returned an error although the consulted fallbacks contain a node that answers successfully: %s%s", c.meth.Name, kit.Short(r.err.Error(), 200), bodyNote))
 			}
 		}
 	}
@@ -1108,6 +1286,7 @@ func sampleHTTPCell(rng *rand.Rand) *hcellSpec {
 			}
 		}
 	}
+	attachProxyBody(rng, spec, m, P+F)
 	spec.Order = rng.Perm(P + F)
 	spec.Deadline = rng.Intn(3) == 0
 	spec.PreEnd = rng.Intn(25) == 0
@@ -1168,7 +1347,20 @@ func unavailableHTTPCell(rng *rand.Rand, must hOutcome) *hcellSpec {
 		}
 		spec.Fall = append(spec.Fall, ns)
 	}
+	attachProxyBody(rng, spec, m, P+F)
 	spec.Order = rng.Perm(P + F)
 
 	return spec
+}
+
+func attachProxyBody(rng *rand.Rand, spec *hcellSpec, m *hmethod, nodes int) {
+	if m.HTTPVerb == "" {
+		return
+	}
+	if m.HTTPVerb == http.MethodPost {
+		spec.BodySize = []int{0, 1 + rng.Intn(400), 1 + rng.Intn(400), 64<<10 + rng.Intn(8<<10)}[rng.Intn(4)]
+	}
+	for i := 0; i < nodes; i++ {
+		spec.Reads = append(spec.Reads, []string{"full", "full", "half", "none"}[rng.Intn(4)])
+	}
 }
